@@ -199,9 +199,10 @@ PROPS = {
                      'range of the floor-based real modulo is a trusted arithmetic fact'],
     ),
     'C17': dict(
-        level='other',
+        level='proof',
         contracts=[],
         functions=[],
+        case_functions=[dict(module='vf.contracts.diagnostics', key='pygyro/diagnostics::constructors')],
         bounded=[dict(module='vf.rt.bounded_diag', prop='C17',
                       bound='l2/l1/nParticles/KineticEnergy in all three 4-D layouts and the phi norm in the 3-D layouts (incl. layouts '
                             'replicated along one process direction) on process grids 1x1..4x3 with uneven blocks and non-uniform r, v '
